@@ -83,9 +83,15 @@ pub fn gen_program(r: &mut Rng, pc: &ProgCfg) -> Vec<ModeSpec> {
             }
             tids.sort();
             tids.dedup();
+            // sometimes most transitions go to one mode (several token types, same target)
+            let fav = if r.chance(40) { Some(r.below(n_modes)) } else { None };
             for t in tids {
-                if r.chance(45) {
-                    transitions.push((t, r.below(n_modes)));
+                if r.chance(55) {
+                    let to = match fav {
+                        Some(f) if r.chance(75) => f,
+                        _ => r.below(n_modes),
+                    };
+                    transitions.push((t, to));
                 }
             }
         }
